@@ -289,6 +289,12 @@ pub struct Ctx<'w, 's>
     prog: Res<'w, ProgRes>,
 }
 
+/// Reactor / system-command bodies take a parameter whose Bevy-side validation can fail (`Populated` is invalid whenever
+/// no user entity is alive): the crate runs its systems without consulting `validate_param`, so the body runs
+/// regardless; a change that starts skipping or mishandling systems with currently invalid parameters becomes visible.
+#[derive(Component)]
+pub struct PopMarker;
+
 #[derive(Resource, Clone)]
 pub struct ProgRes(Arc<Prog>);
 
@@ -419,7 +425,7 @@ fn do_action(ctx: &mut Ctx, occ: &str, a: &Action)
         }
         Action::Spe(e) =>
         {
-            let ent = ctx.c.spawn_empty().id();
+            let ent = ctx.c.spawn(PopMarker).id();
             bind(*e, ent);
             mark(&mut ctx.c, occ);
         }
@@ -576,10 +582,10 @@ fn make_callback(sd: SysDecl, prog: Arc<Prog>) -> SystemCommandCallback
     match (sd.kind, sd.err)
     {
         (Kind::Plain, false) => SystemCommandCallback::new(
-            move |mut ctx: Ctx, mut readers: Readers, mut local: Local<u32>|
+            move |mut ctx: Ctx, mut readers: Readers, mut local: Local<u32>, _pop: Populated<Entity, With<PopMarker>>|
             { let _ = &canary; body_plain(&sd, &prog, &mut captured, &mut ctx, &mut readers, &mut local, None); }),
         (Kind::Plain, true) => SystemCommandCallback::new(
-            move |mut ctx: Ctx, mut readers: Readers, mut local: Local<u32>| -> DropErr
+            move |mut ctx: Ctx, mut readers: Readers, mut local: Local<u32>, _pop: Populated<Entity, With<PopMarker>>| -> DropErr
             { let _ = &canary; body_plain(&sd, &prog, &mut captured, &mut ctx, &mut readers, &mut local, None); Err(IgnoredError) }),
         (Kind::Excl, false) =>
         {
@@ -635,10 +641,10 @@ fn once_sys(c: &mut Commands, sid: u32, prog: &Arc<Prog>, bundle: DynBundle) -> 
     match (sd.kind, sd.err)
     {
         (Kind::Plain, false) => c.react().once(bundle,
-            move |mut ctx: Ctx, mut readers: Readers, mut local: Local<u32>|
+            move |mut ctx: Ctx, mut readers: Readers, mut local: Local<u32>, _pop: Populated<Entity, With<PopMarker>>|
             { let _ = &canary; body_plain(&sd, &prog, &mut captured, &mut ctx, &mut readers, &mut local, None); }),
         (Kind::Plain, true) => c.react().once(bundle,
-            move |mut ctx: Ctx, mut readers: Readers, mut local: Local<u32>| -> DropErr
+            move |mut ctx: Ctx, mut readers: Readers, mut local: Local<u32>, _pop: Populated<Entity, With<PopMarker>>| -> DropErr
             { let _ = &canary; body_plain(&sd, &prog, &mut captured, &mut ctx, &mut readers, &mut local, None); Err(IgnoredError) }),
         (Kind::Excl, false) =>
         {
